@@ -292,7 +292,7 @@ class _CacheSelf(RealFallback):
         self._cache_directory = str(d)
 
 
-def store_race_case(schedule, n_clients):
+def store_race_case(schedule, n_clients, dpos=None):
     global _STORE
     if _STORE is None:
         _STORE = _coop_store()
@@ -305,7 +305,20 @@ def store_race_case(schedule, n_clients):
             gens.append(g if hasattr(g, '__next__') else iter(()))
         live = [True] * n_clients
         errors = []
+        other = 'snapshots/ab/other-9999'
+        if dpos is not None:
+            # another client sharing the cache directory holds one more entry in the same prefix directory and deletes
+            # it (the real _delete_cached, one atomic step) after `dpos` steps of the storing clients
+            Path(d, other).parent.mkdir(parents=True, exist_ok=True)
+            Path(d, other).write_bytes(b'other entry')
+        step_no = 0
         for s in list(schedule) + list(range(n_clients)) * 40:
+            if dpos is not None and step_no == dpos:
+                try:
+                    Repository._delete_cached(_CacheSelf(d), other)
+                except Exception as e:
+                    errors.append('delete: ' + repr(e))
+            step_no += 1
             if not any(live):
                 break
             for off in range(n_clients):
@@ -324,7 +337,7 @@ def store_race_case(schedule, n_clients):
         f = Path(d, path)
         if not f.exists() or f.read_bytes() != data:
             return False, 'shared cache entry missing or different after concurrent stores'
-        left = [p.name for p in f.parent.iterdir() if p.name != f.name]
+        left = [p.name for p in f.parent.iterdir() if p.name != f.name and not (dpos is not None and dpos >= step_no and p.name == 'other-9999')]
         if left:
             return False, f'leftover files next to the cache entry: {left}'
         return True, ''
@@ -332,13 +345,14 @@ def store_race_case(schedule, n_clients):
 
 def k4_store_race(k: int) -> bool:
     """
-    pre: 0 <= k < 2 * 3 ** 6
+    pre: shard(2 * 3 ** 6 * 8)[0] <= k < shard(2 * 3 ** 6 * 8)[1]
     post: _
     """
-    sched = digits(k, [2] + [3] * 6)
+    sched = digits(k, [2] + [3] * 6 + [8])
     with NoTracing():
         n = sched[0] + 2
-        ok, msg = store_race_case([x % n for x in sched[1:]], n)
+        dpos = sched.pop()
+        ok, msg = store_race_case([x % n for x in sched[1:]], n, None if dpos == 7 else dpos)
         tick('k4', [n] + sched[1:])
         if not ok:
             _say(msg)
